@@ -11,7 +11,7 @@ for _f in sorted(glob.glob(os.path.join(_here, "harness", "checks", "*", "check.
 REGISTERED = ["C01", "C02", "C03", "C04", "C05", "C06", "C07", "C08", "C09", "C10", "C11", "C12", "C13", "C14", "C15", "C16", "C17", "C18", "C19", "C20"]
 
 # /repo commits that add tag-guarded hook files (MANIFEST.hooks.source_commits)
-HOOK_COMMITS = ["e85958d", "25b489f"]
+HOOK_COMMITS = ["e85958d", "25b489f", "e2eef89"]
 
 # properties this technique family cannot decide (none so far)
 NOT_APPLICABLE = {}
